@@ -99,6 +99,7 @@ struct State {
   bool walk_disabled = false;     // after a forged free-list link was consumed the allocator legitimately lost free blocks: walks are not judged any more
   bool region_check = false;      // every returned pointer must lie inside memory mimalloc obtained from the OS (C17)
   bool pending_remote = false;    // cross-thread frees were issued since the last collect (C12: walks are judged without pending remote frees)
+  uint64_t n_alloc_via_realloc_null = 0;
   int foreign_live = 0;           // blocks allocated by exited helper threads that are not yet attributed to a heap
   // phase
   int phase = 0; uint64_t phase_left = 0; int victim_mode = 0; size_t victim_class = 0;
